@@ -2197,7 +2197,7 @@ package xpath
 //@   ensures[end@C10] !result ==> s.curr == 0
 //@   ensures[progress@C06] smeas(s) <= old(smeas(s)) && (old(s.curr) != 0 ==> smeas(s) < old(smeas(s)))
 //@ func (*scanner).nextItem
-//@   props C06 C17 C14
+//@   props C06 C17 C14 C10
 //@   mode int
 //@   ghostset s.ntok = old(s.ntok) + 1
 //@   ghostset s.prevtyp = old(s.typ)
@@ -2206,6 +2206,7 @@ package xpath
 //@   modifies heap(F:scanner.*)
 //@   ensures[swf@C17] swf(s)
 //@   ensures[qualified-name@C17] result && s.typ == itemName && s.prefix != "" ==> s.name != ""
+//@   ensures[function-lookahead@C10] result && s.typ == itemName ==> s.canBeFunc == (s.curr == '(')     // a name is a function name or node-type test exactly when the next character AFTER optional whitespace is '('
 //@   ensures[name-split@C14!!] result && s.typ == itemName ==> called(scanName, 0) && ite(called(scanName, 1), s.prefix == retval(scanName, 0) && s.name == retval(scanName, 1), ite(s.name == "*" && s.prefix != "", s.prefix == retval(scanName, 0), s.prefix == "" && s.name == retval(scanName, 0)))     // prefix and local part are the two names scanned for THIS token (no prefix: none)
 //@   ensures[axis-name@C14!!] result && s.typ == itemAxe ==> s.prefix == "" && s.name == retval(scanName, 0)
 //@   ensures[progress@C06] smeas(s) <= old(smeas(s)) && (result ==> smeas(s) < old(smeas(s))) && result == (s.typ != itemEOF)
